@@ -224,7 +224,10 @@ def _genset_cases(tier):
     for c in (_gs([1, 2, 4], 7, "float"), _gs([1, 2, 4], 7, "int"), _gs([3], 10, "float"), _gs([3], 10, "int"), _gs([2, 2, 3], 7, "int"),
               _gs([5, 5], 5, "int"), _gs([1, 1, 1, 1], 4, "int"), _gs([7], 7, "float"), _gs([1, 2, 3], 3, "int"), _gs([1, 3], 2, "float", m=2),
               _gs([2, 1], 3, "int", m=2), _gs([1, 2, 3, 4], 10, "int", parts=[[4, 6]]), _gs([2, 5, 7, 9], 12, "int", m=2),
-              _gs([1, 2, 4, 8], 15, "int"), _gs([1, 2, 4, 8], 15, "float"), _gs([1, 2, 3], 6, "int", lb=5), _gs([4, 6], 10, "float", lb=1)):
+              _gs([1, 2, 4, 8], 15, "int"), _gs([1, 2, 4, 8], 15, "float"), _gs([1, 2, 3], 6, "int", lb=5), _gs([4, 6], 10, "float", lb=1),
+              # multiplicities above 2: k elements generate more than 2^k - 1 different numbers (a subset-counting bound does not apply)
+              _gs([1, 2, 3], 1, "int", m=3), _gs([2, 4, 6, 8], 5, "int", m=4), _gs([1, 2, 3], 1, "float", m=3), _gs([3, 6, 9], 3, "int", m=3),
+              _gs([1, 2, 3, 4, 5], 3, "int", m=3)):
         yield c
 
 
